@@ -14,3 +14,8 @@ def run(tier):
             "x sums, substitutions (numbers, variables, affine expressions, batched tensors, batch indices), align, Cat; "
             "each result evaluated at every sample point of the remaining real inputs and every batch assignment")
     return out.finish()
+
+
+def replay_file(path):
+    from harness import replayfile
+    return replayfile.replay_term(path, "harness.modes:c12", "C12")
